@@ -1,5 +1,5 @@
-From TLXV Require Import C16.Ring C16.SVec C16.RingRefine.
+From TLXV Require Import C16.Ring C16.SVec C16.RingRefine C16.SVecProofs.
 Require Extraction. Require ExtrOcamlBasic.
 Extraction Language OCaml.
 Extraction "../ocaml/gen/C16_model.ml" Ring.run Ring.init_state Ring.final_bad RingRefine.valid RingRefine.srun
-  SVec.vrun SVec.vinit SVec.vfinal_ok.
+  SVec.vrun SVec.vinit SVec.vfinal_ok SVecProofs.svalid SVecProofs.srun.
